@@ -11,8 +11,8 @@ CLAIM = {
           "tag, data size = length of the records, correct header CRC; every definition record as long as its counts announce; every data record preceded by a live definition "
           "for its local number (normal and compressed-timestamp headers) whose sizes add up to the record's length, also after evictions from the LRU; records covering exactly "
           "the data size; file CRC over the sequence from its first byte. Also: running size/CRC, values written back equal the wire. Hypotheses: output is a byte string and "
-          "shorter than 4 GiB. Refuted for 12-byte headers (records-only CRC; known finding legacy_header_file_crc, witness in Props/C02.v). 'Nothing between chained sequences' "
-          "and the agreement of the Go encoder with the model are decided on every run (byte-exact correspondence, wf_stream_b on the Go bytes, decoder.CheckIntegrity, and the "
+          "shorter than 4 GiB. Refuted for 12-byte headers (records-only CRC; known finding legacy_header_file_crc, witness in Props/C02.v). Chained files (C02_chain_wf): the output for a list of files is exactly that many well-formed sequences, nothing between and nothing after them. "
+          "The agreement of the Go encoder with the model is decided on every run (byte-exact correspondence, wf_stream_b on the Go bytes, decoder.CheckIntegrity, and the "
           "writer-kind oracle of C09 for destinations other than a plain writer).",
   "note": NOTE_COMMON + " Model/Wire.v is written from the protocol text and shares no definition with Encoder.v/Decoder.v."}
 
